@@ -101,6 +101,48 @@ Proof.
   unfold bind. rewrite Hm. reflexivity.
 Qed.
 
+Lemma field_at (sc : schema) dm j c pre_f f post_f pre_x cur post_x tag wt payload rest a cur' a' :
+  nth_error sc j = Some (pre_f ++ f :: post_f) -> length pre_f = length pre_x ->
+  existsb (Z.eqb tag) (flat_map field_tags pre_f) = false -> existsb (Z.eqb tag) (field_tags f) = true ->
+  merge_fieldval (merge_field dm sc) (default_ty dm sc) f cur tag wt c (mkR (payload ++ rest) a) = OOk cur' (mkR rest a') ->
+  merge_field (S dm) sc j (VL NMsg (pre_x ++ cur :: post_x)) tag wt c (mkR (payload ++ rest) a)
+  = OOk (VL NMsg (pre_x ++ cur' :: post_x)) (mkR rest a').
+Proof.
+  intros Hn Hl Hpre Hin Hm. cbn [merge_field]. rewrite Hn.
+  unfold bind at 1. rewrite merge_in_fields_prefix by assumption. cbn [merge_in_fields]. rewrite Hin.
+  unfold bind. rewrite Hm. reflexivity.
+Qed.
+
+(* ------------------------------------------------------------------ records with their keys *)
+(* [steps] whose every record is a key -- of a wire type other than EndGroup -- and a payload that merge_field consumes
+   exactly: what the loop of group::merge needs to know (it looks at the wire type before it calls merge_field) *)
+Section KSteps.
+  Variable sc : schema.
+  Variables (dm : nat) (j : nat) (c : Z).
+
+  Inductive ksteps : val -> list byte -> val -> Prop :=
+  | ksteps_nil x : ksteps x [] x
+  | ksteps_cons x tag wt payload x' b x'' :
+      tag_ok tag -> wt <> EndGroup ->
+      (forall rest a, exists a', merge_field dm sc j x tag wt c (mkR (payload ++ rest) a) = OOk x' (mkR rest a')) ->
+      ksteps x' b x'' -> ksteps x ((encode_key tag wt ++ payload) ++ b) x''.
+
+  Lemma ksteps_app x b1 x1 b2 x2 : ksteps x b1 x1 -> ksteps x1 b2 x2 -> ksteps x (b1 ++ b2) x2.
+  Proof.
+    intros H1 H2. induction H1 as [x|x tag wt payload x' b x'' Ht Hw Hm Hs IH]; [exact H2|].
+    rewrite <- app_assoc. econstructor; eauto.
+  Qed.
+
+  Lemma ksteps_steps x b x' : ksteps x b x' -> steps sc dm j c x b x'.
+  Proof.
+    unfold steps. induction 1 as [x|x tag wt payload x' b x'' Ht Hw Hm Hs IH]; [constructor|].
+    econstructor; [| |exact IH].
+    - intros E. apply app_eq_nil in E. destruct E as [E _]. exact (encode_key_nonempty _ _ E).
+    - intros rest a. destruct (Hm rest a) as [a' E]. exists a'. unfold rbody. rewrite <- app_assoc.
+      rewrite (bind_ok _ _ _ _ _ (decode_key_rt tag wt _ a Ht)). exact E.
+  Qed.
+End KSteps.
+
 (* ------------------------------------------------------------------ the records of one field *)
 Section FSteps.
   Variable sc : schema.
@@ -109,13 +151,13 @@ Section FSteps.
   Inductive fsteps : val -> list byte -> val -> Prop :=
   | fsteps_nil cur : fsteps cur [] cur
   | fsteps_cons cur tag wt payload cur' b cur'' :
-      existsb (Z.eqb tag) (field_tags f) = true -> tag_ok tag ->
+      existsb (Z.eqb tag) (field_tags f) = true -> tag_ok tag -> wt <> EndGroup ->
       (forall rest a, exists a', merge_fieldval (merge_field dm sc) (default_ty dm sc) f cur tag wt c (mkR (payload ++ rest) a)
                                  = OOk cur' (mkR rest a')) ->
       fsteps cur' b cur'' -> fsteps cur ((encode_key tag wt ++ payload) ++ b) cur''.
 
   Lemma fsteps_one cur tag wt payload cur' :
-    existsb (Z.eqb tag) (field_tags f) = true -> tag_ok tag ->
+    existsb (Z.eqb tag) (field_tags f) = true -> tag_ok tag -> wt <> EndGroup ->
     (forall rest a, exists a', merge_fieldval (merge_field dm sc) (default_ty dm sc) f cur tag wt c (mkR (payload ++ rest) a)
                                = OOk cur' (mkR rest a')) ->
     fsteps cur (encode_key tag wt ++ payload) cur'.
@@ -127,10 +169,21 @@ Section FSteps.
     fsteps cur b cur' ->
     steps sc (S dm) j c (VL NMsg (pre_x ++ cur :: post_x)) b (VL NMsg (pre_x ++ cur' :: post_x)).
   Proof.
-    intros Hn Hl Hd H. unfold steps. induction H as [cur|cur tag wt payload cur1 b cur2 Hin Ht Hm Hs IH]; [constructor|].
+    intros Hn Hl Hd H. unfold steps. induction H as [cur|cur tag wt payload cur1 b cur2 Hin Ht Hwt Hm Hs IH]; [constructor|].
     econstructor; [| |exact IH].
     - intros E. apply app_eq_nil in E. destruct E as [E _]. exact (encode_key_nonempty _ _ E).
     - intros rest a. destruct (Hm rest a) as [a' E]. exists a'. eapply body_at; eauto.
+  Qed.
+
+  Lemma fsteps_ksteps j pre_f post_f pre_x post_x cur b cur' :
+    nth_error sc j = Some (pre_f ++ f :: post_f) -> length pre_f = length pre_x ->
+    (forall tag, existsb (Z.eqb tag) (field_tags f) = true -> existsb (Z.eqb tag) (flat_map field_tags pre_f) = false) ->
+    fsteps cur b cur' ->
+    ksteps sc (S dm) j c (VL NMsg (pre_x ++ cur :: post_x)) b (VL NMsg (pre_x ++ cur' :: post_x)).
+  Proof.
+    intros Hn Hl Hd H. induction H as [cur|cur tag wt payload cur1 b cur2 Hin Ht Hwt Hm Hs IH]; [constructor|].
+    econstructor; [exact Ht|exact Hwt| |exact IH].
+    intros rest a. destruct (Hm rest a) as [a' E]. exists a'. eapply field_at; eauto.
   Qed.
 End FSteps.
 
@@ -285,6 +338,12 @@ Section FieldRt.
       apply IHmsg; auto; lia.
   Qed.
 
+  Lemma ty_wire_not_end t : ty_wire t <> EndGroup.
+  Proof.
+    destruct t as [p|j0]; cbn [ty_wire]; [|discriminate].
+    destruct (scalar_module p) as [m|]; [|discriminate]. destruct m; vm_compute; discriminate.
+  Qed.
+
   Lemma ty_payload_bound tag t e : wt_ty wt_rec t e = true -> zlen (enc_ty enc_rec len_rec tag t e) < two64 -> zlen (ty_payload t e) < two64.
   Proof.
     intros Hw Hz. rewrite (enc_ty_split tag t e Hw), zlen_app in Hz. pose proof (zlen_nonneg (encode_key tag (ty_wire t))). lia.
@@ -298,7 +357,7 @@ Section FieldRt.
     zlen (enc_ty enc_rec len_rec tag t x) < two64 -> start_ok t cur ->
     fsteps sc dm c (FSingular tag t) cur (enc_ty enc_rec len_rec tag t x) x.
   Proof.
-    intros Ht Hw Hl Hz Hst. rewrite (enc_ty_split tag t x Hw). apply fsteps_one; [apply self_tag|exact Ht|].
+    intros Ht Hw Hl Hz Hst. rewrite (enc_ty_split tag t x Hw). apply fsteps_one; [apply self_tag|exact Ht|apply ty_wire_not_end|].
     intros rest a. cbn [merge_fieldval]. apply ty_rt; auto; [eapply ty_payload_bound; eauto|lia].
   Qed.
 
@@ -306,7 +365,7 @@ Section FieldRt.
     zlen (enc_ty enc_rec len_rec tag t e) < two64 ->
     fsteps sc dm c (FOptional tag t) (VL NNone []) (enc_ty enc_rec len_rec tag t e) (VL NSome [e]).
   Proof.
-    intros Ht Hw Hl Hz. rewrite (enc_ty_split tag t e Hw). apply fsteps_one; [apply self_tag|exact Ht|].
+    intros Ht Hw Hl Hz. rewrite (enc_ty_split tag t e Hw). apply fsteps_one; [apply self_tag|exact Ht|apply ty_wire_not_end|].
     intros rest a. cbn [merge_fieldval].
     destruct (ty_rt t e (dflt t) c rest a Hw Hl (ty_payload_bound tag t e Hw Hz) (dflt_start_ok t) ltac:(lia)) as [a' E].
     exists a'. rewrite (bind_ok _ _ _ _ _ E). reflexivity.
@@ -316,7 +375,7 @@ Section FieldRt.
     wt_ty wt_rec t e = true -> ll_ty ll_rec t e -> zlen (enc_ty enc_rec len_rec tag t e) < two64 ->
     fsteps sc dm c (FOneof ms) (VL NNone []) (enc_ty enc_rec len_rec tag t e) (VL (NOne idx) [e]).
   Proof.
-    intros Hnd Hn Ht Hw Hl Hz. rewrite (enc_ty_split tag t e Hw). apply fsteps_one; [|exact Ht|].
+    intros Hnd Hn Ht Hw Hl Hz. rewrite (enc_ty_split tag t e Hw). apply fsteps_one; [|exact Ht|apply ty_wire_not_end|].
     - cbn [field_tags]. apply existsb_exists. exists tag. split; [|apply Z.eqb_refl].
       apply nth_error_In in Hn. apply (in_map fst) in Hn. exact Hn.
     - intros rest a. cbn [merge_fieldval]. unfold merge_oneof. rewrite (find_member_nth ms idx tag t 0 Hnd Hn). cbn [Nat.add].
@@ -336,7 +395,7 @@ Section FieldRt.
       pose proof (zlen_nonneg (enc_ty enc_rec len_rec tag t e)). pose proof (zlen_nonneg (flat_map (enc_ty enc_rec len_rec tag t) es)).
       rewrite (enc_ty_split tag t e He).
       replace (acc ++ e :: es) with ((acc ++ [e]) ++ es) by (rewrite <- app_assoc; reflexivity).
-      econstructor; [apply self_tag|exact Ht| |apply IH; auto; lia].
+      econstructor; [apply self_tag|exact Ht|apply ty_wire_not_end| |apply IH; auto; lia].
       intros rest a. cbn [merge_fieldval].
       destruct t as [p|j]; cbn [merge_rep ty_wire ty_payload wt_ty] in *.
       + destruct (scalar_module p) as [m|] eqn:E; [|discriminate He].
@@ -459,7 +518,7 @@ Section FieldRt.
       pose proof (entry_split tag k vt kv vv Hk Hv Hze) as Hsp. rewrite Hsp in Hze |- *. rewrite !zlen_app in Hze.
       pose proof (zlen_nonneg (encode_key tag LengthDelimited)). pose proof (zlen_nonneg (encode_varint (zlen (entry_bytes k vt kv vv)))).
       replace (acc ++ VL NPair [kv; vv] :: es) with ((acc ++ [VL NPair [kv; vv]]) ++ es) by (rewrite <- app_assoc; reflexivity).
-      econstructor; [apply self_tag|exact Ht| |apply IH; auto].
+      econstructor; [apply self_tag|exact Ht|discriminate| |apply IH; auto].
       + intros rest a. cbn [merge_fieldval]. unfold merge_map. rewrite <- app_assoc.
         destruct (entry_rt k vt kv vv rest a Hkt Hk Hv Hle ltac:(lia)) as [a' E].
         eexists. rewrite (bind_bind_ok _ _ _ _ _ _ E). cbn [fst snd].
@@ -539,9 +598,9 @@ Section FieldsRt.
     Forall tag_ok (flat_map field_tags rest_f) -> forallb2 (wt_field (wt_msg dv sc)) rest_f rest_x = true ->
     ll_fields edv sc (lossless edv dv sc) (ty_is_default dv sc) dv rest_f rest_x ->
     zlen (enc_fields edv (enc_msg edv dv sc) (len_msg edv dv sc) (ty_is_default dv sc) rest_f rest_x) < two64 ->
-    steps sc (S dm) j c (VL NMsg (pre_x ++ map (default_field dt) rest_f))
-          (enc_fields edv (enc_msg edv dv sc) (len_msg edv dv sc) (ty_is_default dv sc) rest_f rest_x)
-          (VL NMsg (pre_x ++ rest_x)).
+    ksteps sc (S dm) j c (VL NMsg (pre_x ++ map (default_field dt) rest_f))
+           (enc_fields edv (enc_msg edv dv sc) (len_msg edv dv sc) (ty_is_default dv sc) rest_f rest_x)
+           (VL NMsg (pre_x ++ rest_x)).
   Proof.
     induction rest_f as [|f rest_f IH]; intros pre_f pre_x rest_x Hn Hl Hnd Hok Ht Hw Hll Hz.
     - destruct rest_x; [|discriminate Hw]. cbn [map enc_fields]. constructor.
@@ -554,8 +613,8 @@ Section FieldsRt.
       rewrite flat_map_app in Hnd. cbn [flat_map] in Hnd.
       assert (Hndf : nodupZ (field_tags f) = true).
       { apply nodupZ_app_r in Hnd. apply nodupZ_app_l in Hnd. exact Hnd. }
-      apply gsteps_app with (x1 := VL NMsg (pre_x ++ x :: map (default_field dt) rest_f)).
-      + apply (fsteps_steps sc dm c f j pre_f rest_f pre_x); auto.
+      apply ksteps_app with (x1 := VL NMsg (pre_x ++ x :: map (default_field dt) rest_f)).
+      + apply (fsteps_ksteps sc dm c f j pre_f rest_f pre_x); auto.
         * intros tag Hin. eapply nodupZ_disjoint; [exact Hnd|]. rewrite existsb_app, Hin. reflexivity.
         * apply (field_rt edv sc Hs dv dm c Hdm Hc IHmsg dt dt_ok); auto; lia.
       + replace (pre_x ++ x :: map (default_field dt) rest_f) with ((pre_x ++ [x]) ++ map (default_field dt) rest_f)
@@ -570,10 +629,10 @@ Section FieldsRt.
 End FieldsRt.
 
 (* ------------------------------------------------------------------ messages, by induction on the depth of the value *)
-Theorem msg_rt_steps edv sc : schema_ok sc = true -> forall d j v dm c Dd,
+Theorem msg_rt_ksteps edv sc : schema_ok sc = true -> forall d j v dm c Dd,
   wt_msg d sc j v = true -> lossless edv d sc j v -> zlen (enc_msg edv d sc j v) < two64 ->
   (d <= dm)%nat -> (d <= Dd)%nat -> 2 * Z.of_nat d - 1 <= c ->
-  steps sc dm j c (default_msg Dd sc j) (enc_msg edv d sc j v) v.
+  ksteps sc dm j c (default_msg Dd sc j) (enc_msg edv d sc j v) v.
 Proof.
   intros Hs. induction d as [|dv IH]; intros j v dm c Dd Hw Hl Hz Hdm HDd Hc; [discriminate Hw|].
   destruct dm as [|dm]; [lia|]. destruct Dd as [|Dd]; [lia|].
@@ -586,9 +645,15 @@ Proof.
   { unfold schema_ok in Hs. rewrite forallb_forall in Hs. pose proof (nth_error_In _ _ En) as Hin. specialize (Hs fs Hin).
     unfold msgdesc_ok in Hs. apply andb_prop in Hs. tauto. }
   apply (fields_rt edv sc Hs dv dm c ltac:(lia) ltac:(lia)
-           (fun j0 e Dd0 c' H1 H2 H3 H4 H5 => IH j0 e dm c' Dd0 H1 H2 H3 ltac:(lia) H4 H5) dt) with (pre_f := []) (pre_x := []); auto.
+           (fun j0 e Dd0 c' H1 H2 H3 H4 H5 => ksteps_steps _ _ _ _ _ _ _ (IH j0 e dm c' Dd0 H1 H2 H3 ltac:(lia) H4 H5)) dt) with (pre_f := []) (pre_x := []); auto.
   intros [p|j0]; cbn [start_ok]; [exact I|]. exists Dd. split; [lia|reflexivity].
 Qed.
+
+Theorem msg_rt_steps edv sc : schema_ok sc = true -> forall d j v dm c Dd,
+  wt_msg d sc j v = true -> lossless edv d sc j v -> zlen (enc_msg edv d sc j v) < two64 ->
+  (d <= dm)%nat -> (d <= Dd)%nat -> 2 * Z.of_nat d - 1 <= c ->
+  steps sc dm j c (default_msg Dd sc j) (enc_msg edv d sc j v) v.
+Proof. intros. apply ksteps_steps. apply msg_rt_ksteps; assumption. Qed.
 
 (* with the feature on nothing is skipped, so nothing can be lost *)
 Lemma lossless_edv sc : forall d i v, lossless true d sc i v.
